@@ -102,6 +102,11 @@ def gen_fasta(rng, path, lengths):
                 a = int(rng.integers(0, ln))
                 b = min(ln, a + int(rng.integers(1, 700)))
                 seq[a:b] = "N" if rng.random() < 0.7 else "n"
+            # IUPAC ambiguity codes (as in GRCh38), either case: ambiguous bases like N
+            if rng.random() < 0.6:
+                k = int(rng.integers(1, max(2, ln // 300)))
+                at = rng.integers(0, ln, k)
+                seq[at] = rng.choice(list("RYSWKMBDHVryswkmbdhv"), k)
             s = "".join(seq.tolist())
             fh.write(f">{name} synthetic\n")
             for i in range(0, ln, width):
